@@ -264,8 +264,11 @@ class Check(object):
                                    'what': fl['what'], 'case': fl['case'], 'detail': fl.get('detail'),
                                    'classifier': fl.get('classifier'),
                                    'broken_obligations': [b[:2] for b in self.broken]})
-            lines.append('VIOLATION property=%s replay=%s' % (self.pid, os.path.relpath(p, ROOT)))
+            if violations < 8:
+                lines.append('VIOLATION property=%s replay=%s' % (self.pid, os.path.relpath(p, ROOT)))
             violations += 1
+        if violations > 8:
+            lines.append('(%d further violations, replays written)' % (violations - 8))
         if self.broken and not unlisted:
             p = self.write_replay({'property': self.pid, 'seed': self.seed, 'tier': self.tier,
                                    'what': 'proof obligation or correspondence no longer checks; no failing input found',
